@@ -709,7 +709,7 @@ fn pool_take() -> PoolWorker {
     let tx2 = tx.clone();
     POOL_CREATED.fetch_add(1, Ordering::Relaxed);
     let h = std::thread::Builder::new()
-        .stack_size(16 << 20)
+        .stack_size(std::env::var("SIMRT_STACK_KB").ok().and_then(|s| s.parse::<usize>().ok()).unwrap_or(4096) << 10)
         .name("simrt-pool".into())
         .spawn(move || {
             for job in rx {
